@@ -20,6 +20,7 @@ import os
 
 from common import setup_repo_import
 from lib import lossworld as LW
+from lib import c08sys as CS
 import vloop
 from vloop import Spin, Stall, vrun
 
@@ -209,12 +210,16 @@ def run_impl(case):
 
 def _worker(cases):
     setup_repo_import()
-    return [run_impl(c) for c in cases]
+    return [run_any(c) for c in cases]
+
+
+def run_any(c):
+    return CS.run_impl(c, _ensure_patched, _CUR) if "ev" in c else run_impl(c)
 
 
 def run_impl_many(cases, nproc):
     if nproc <= 1 or len(cases) < 300:
-        return [run_impl(c) for c in cases]
+        return [run_any(c) for c in cases]
     size = max(40, len(cases) // (nproc * 4))
     parts = [cases[i:i + size] for i in range(0, len(cases), size)]
     with mp.get_context("fork").Pool(nproc) as pool:
@@ -490,13 +495,107 @@ def run(ctx):
     ctx.notes["model_difference_classes"] = nt
     for i in (0, len(cases) // 3, len(cases) // 2, len(cases) - 1):
         ctx.sample({"case": cases[i], "impl": impl[i], "model": model[i]})
+    run_sys(ctx, nproc)
     wait_for_ecu_probe(ctx)
     ctx.notes["silence_on_line_transports"] = (
         "a silent peer on tcp-lines / unix-lines only produces timeouts: the client retries on the same connection and ends "
         "with MissingResponse in bounded time; no reconnect is attempted (model and implementation agree)")
 
 
+# ---------------------------------------------------------------------------------------------------------------
+# whole executions (Model/LossSys.lean)
+
+def gen_sys_cases(ctx):
+    rng = ctx.rng
+    cases = []
+    n_s, n_a = ctx.pick(2600, 40000), ctx.pick(1400, 20000)
+    if ctx.widened:
+        n_s, n_a = n_s * 3, n_a * 3
+    trs = ["tcp-lines", "doip", "hsfz", "unix-lines"]
+    for i in range(n_s):
+        cases.append(CS.gen_sensible(rng, trs[i % 4] if i % 8 < 7 else "tcp-lines"))
+    for i in range(n_a):
+        cases.append(CS.gen_adversarial(rng, trs[i % 3]))
+    return cases
+
+
+def sys_differs(ctx, c):
+    a = run_any(c)
+    b, ties = CS.canon_model(ctx.lean([CS.model_line(c)])[0])
+    return ties == 0 and (a != b or bool(CS.spec_check(c, a)))
+
+
+def run_sys(ctx, nproc):
+    cases = gen_sys_cases(ctx)
+    impl = run_impl_many(cases, nproc)
+    model = ctx.lean([CS.model_line(c) for c in cases])
+    ties = 0
+    viol, broken = {}, {}
+    for c, a, mline in zip(cases, impl, model):
+        b, t = CS.canon_model(mline)
+        ctx.ev()
+        ctx.kind("sys:" + c["stream"], f"sys-tr:{c['tr']}", f"sys-max_retry:{c['mr']}")
+        if t:
+            ties += 1      # a deadline falls exactly on a peer event: order not modelled, not compared
+            continue
+        ctx.nontrivial(CS.case_key(c))
+        ctx.traces_validated += 1
+        for tok in a.split(" "):
+            if tok.startswith(("req:", "rc:")):
+                ctx.kind("sys-outcome:" + ":".join(tok.split(":")[:2]))
+        sv = CS.spec_check(c, a) if c["stream"].startswith("sensible") else [x for x in CS.spec_check(c, a) if x[0] != "fabricated-data"]
+        for clause, text in sv:
+            k = f"{clause}:{c['tr']}"
+            if k not in viol or len(c["ev"]) < len(viol[k][0]["ev"]):
+                viol[k] = (c, a, b, clause, text)
+        if a != b and not sv:
+            fa, fb = a.split(" "), b.split(" ")
+            first = next((i for i, (x, y) in enumerate(zip(fa + ["?"] * 99, fb + ["?"] * 99)) if x != y), 0)
+            what = (fa + ["?"] * 99)[first].split(":")[0] if first < len(fa) and ":" in (fa + ["?"] * 99)[first] else "log"
+            k = f"{what}:{c['tr']}"
+            if k not in broken or len(c["ev"]) < len(broken[k][0]["ev"]):
+                broken[k] = (c, a, b)
+    for k, (c, a, b, clause, text) in sorted(viol.items()):
+        c2 = CS.shrink(c, lambda x: any(cl == clause for cl, _ in CS.spec_check(x, run_any(x))))
+        a2 = run_any(c2)
+        b2 = CS.canon_model(ctx.lean([CS.model_line(c2)])[0])[0]
+        ctx.disagree(f"c08sys:{clause}:{c2['tr']}:mr={c2['mr']}:{' '.join(c2['ev'])}",
+                     f"{c2['tr']} whole execution, max_retry={c2['mr']}: {text}",
+                     {"case": c2, "model_line": CS.model_line(c2)}, impl=a2, model=b2, spec_violated=True,
+                     site="UDSClient.request_unsafe / BaseTransport.reconnect")
+    for k, (c, a, b) in sorted(broken.items()):
+        c2 = CS.shrink(c, lambda x: sys_differs(ctx, x))
+        a2 = run_any(c2)
+        b2 = CS.canon_model(ctx.lean([CS.model_line(c2)])[0])[0]
+        ctx.disagree(f"c08sys:model-differs:{c2['tr']}:mr={c2['mr']}:{' '.join(c2['ev'])}",
+                     f"{c2['tr']} whole execution, max_retry={c2['mr']}: implementation and model differ",
+                     {"case": c2, "model_line": CS.model_line(c2)}, impl=a2, model=b2, spec_violated=False,
+                     site="UDSClient.request_unsafe / BaseTransport.reconnect")
+    ctx.notes["sys_cases"] = len(cases)
+    ctx.notes["sys_ties_skipped"] = ties
+    ctx.notes["sys_spec_violation_classes"] = len(viol)
+    ctx.notes["sys_model_difference_classes"] = len(broken)
+    for i in (0, len(cases) // 2, len(cases) - 1):
+        ctx.sample({"case": cases[i], "impl": impl[i], "model": model[i]})
+
+
+def _replay_sys(ctx, c):
+    a = run_any(c)
+    mline = ctx.lean([CS.model_line(c)])[0]
+    b, ties = CS.canon_model(mline)
+    print("case  :", json.dumps(c, sort_keys=True))
+    print("events:", " ".join(c["ev"]))
+    print("impl  :", a)
+    print("model :", b, f"(ties {ties})")
+    v = CS.spec_check(c, a)
+    for clause, text in v:
+        print(f"property clause violated by the implementation: {clause}: {text}")
+    return 1 if (v or (a != b and not ties)) else 0
+
+
 def _replay_one(ctx, c):
+    if "ev" in c:
+        return _replay_sys(ctx, c)
     a = run_impl(c)
     b = ctx.lean([model_line(c)])[0]
     print("case  :", json.dumps(c, sort_keys=True))
